@@ -14,7 +14,8 @@
    every iteration order of the Go map; these theorems quantify over all strategies, parameters
    and node lists. *)
 From Verif Require Import Lib.Base Model.C07_Strategies Model.C07_Spec
-  Proofs.C07 Proofs.C07_Acc Proofs.C07_Timed Proofs.C07_Outcomes Proofs.C07_Majority Proofs.C07_Check Check.C07.
+  Proofs.C07 Proofs.C07_Acc Proofs.C07_Timed Proofs.C07_Outcomes Proofs.C07_Majority Proofs.C07_Check Proofs.C07_Float
+  Check.C07.
 From Coq Require Import Permutation QArith.
 Open Scope N_scope.
 
@@ -436,3 +437,58 @@ Theorem C07_model_satisfies_property :
   forall c : case, agree c = true -> P c.
 Proof. exact agree_implies_P. Qed.
 Print Assumptions C07_model_satisfies_property.
+
+(* =========================================================================================== *)
+(* G. The score of a block proposal, over the whole range of block values.
+
+   Consensus and execution value are amounts of wei of any size (2^64 wei is about 18.45 ETH: a
+   large MEV block does not fit 64 bits).  beaconblockproposal/best adds them exactly and converts
+   the sum once; the model's score is [round53 (cv + ev)], the float64 nearest to the exact sum
+   (ties to even), compared with Go's [>].  Theorems 7-8 and 18 then say "no consumed / acceptable
+   answer outscores the returned one" for THIS score; the two theorems below say what that score
+   is in terms of the exact values. *)
+
+(* [round53] is the nearest-float64 rounding: exact below 2^53, monotone, and off by at most half
+   the spacing 2^(log2 n - 52) of the float64 numbers at the magnitude of n. *)
+Theorem C07_proposal_score_is_nearest_float64 :
+  (forall n, n < 2 ^ 53 -> round53 n = n)
+  /\ (forall a b, a <= b -> round53 a <= round53 b)
+  /\ (forall n, 53 <= N.log2 n ->
+        2 * round53 n <= 2 * n + 2 ^ (N.log2 n - 52) /\ 2 * n <= 2 * round53 n + 2 ^ (N.log2 n - 52)).
+Proof.
+  split; [exact round53_small|]. split; [exact round53_mono|]. exact round53_err.
+Qed.
+Print Assumptions C07_proposal_score_is_nearest_float64.
+
+(* Hence, for any two proposals (any versions, fee recipients, values of any size): one that
+   outscores the other is worth strictly more; one that is worth more by more than the float64
+   spacing at its magnitude outscores the other; below 2^53 wei the score order IS the order of
+   the exact values.  (Within the spacing two different values may share a score: then the first
+   received stays, theorem 8.) *)
+Theorem C07_proposal_score_order :
+  forall pr v1 f1 c1 e1 v2 f2 c2 e2,
+    let s1 := score_of PropBest pr (RProp v1 f1 c1 e1) in
+    let s2 := score_of PropBest pr (RProp v2 f2 c2 e2) in
+    (sgt s1 s2 = true -> c2 + e2 < c1 + e1)
+    /\ (c2 + e2 + 2 ^ (N.log2 (c1 + e1) - 52) < c1 + e1 -> sgt s1 s2 = true)
+    /\ (c1 + e1 < 2 ^ 53 -> c2 + e2 < 2 ^ 53 -> (sgt s1 s2 = true <-> c2 + e2 < c1 + e1)).
+Proof.
+  intros pr v1 f1 c1 e1 v2 f2 c2 e2 s1 s2. split; [|split].
+  - exact (prop_score_gt_exact pr v1 f1 c1 e1 v2 f2 c2 e2).
+  - exact (prop_score_separated pr v1 f1 c1 e1 v2 f2 c2 e2).
+  - exact (prop_score_exact_below_2_53 pr v1 f1 c1 e1 v2 f2 c2 e2).
+Qed.
+Print Assumptions C07_proposal_score_order.
+
+(* non-vacuity: a 19 ETH block (execution value above 2^64 wei) outscores a 1 ETH block; 2^64 and
+   2^64 + 1 wei share a float64 (neither outscores the other); 2^64 + 4096 wei is the next one *)
+Example C07_proposal_score_examples :
+  let pr := mk_params 2000000000 32 3200 0 [] in
+  let sc := fun cv ev => score_of PropBest pr (RProp 5 1 cv ev) in
+  sgt (sc 50000000000000000 19000000000000000000) (sc 50000000000000000 1000000000000000000) = true
+  /\ sgt (sc 0 18446744073709551617) (sc 0 18446744073709551616) = false
+  /\ sgt (sc 0 18446744073709551616) (sc 0 18446744073709551617) = false
+  /\ sgt (sc 9223372036854775808 9223372036854775808) (sc 9223372036854775813 1000) = true
+  /\ round53 (2 ^ 64 + 2048) = 2 ^ 64 /\ round53 (2 ^ 64 + 2049) = 2 ^ 64 + 4096
+  /\ round53 (2 ^ 64 + 6144) = 2 ^ 64 + 8192.
+Proof. vm_compute. repeat split; reflexivity. Qed.
